@@ -234,7 +234,7 @@ def _match_known(signature, known):
 
 
 def write_replay(prop, rec):
-    d = os.path.join(VERIF, "replays", prop)
+    d = os.path.join(VERIF, "replays" if os.path.realpath(REPO) == "/repo" else os.path.join("scratch", "replays"), prop)
     os.makedirs(d, exist_ok=True)
     cid = case_id([rec["signature"], rec["case"]])
     path = os.path.join(d, cid + ".json")
@@ -303,7 +303,9 @@ def write_evidence(ctx, meta, wall, violations, known_seen):
         "repo": os.path.realpath(REPO),
     }
     _validate_evidence(ev)
-    d = os.path.join(VERIF, "evidence")
+    # evidence of runs against a scratch copy (VERIF_REPO != /repo: mutant and seed runs) is kept apart so that
+    # the registered evidence files always describe /repo itself
+    d = os.path.join(VERIF, "evidence") if os.path.realpath(REPO) == "/repo" else os.path.join(VERIF, "scratch", "evidence")
     os.makedirs(d, exist_ok=True)
     path = os.path.join(d, ctx.prop + ".json")
     tmp = path + ".tmp"
